@@ -879,7 +879,7 @@ func c12check(c *ctx, cases []c12case) {
 	res := c.res
 	obs := make([]c12obs, len(cases))
 	var wg sync.WaitGroup
-	sem := make(chan struct{}, 16)
+	sem := make(chan struct{}, vlib.Conc(16))
 	for i := range cases {
 		wg.Add(1)
 		sem <- struct{}{}
